@@ -44,6 +44,7 @@ RULE = (
     'time, optional individual, both flags. Non-trivial: >=2 individuals and >=2 observables with a NaN, or '
     '>=2 bulk probabilities with >=10 samples per time. Distinct = distinct structural projection (figure, '
     'numbers of individuals/observables/rows, flags, times, samples per time, number of probabilities).')
+RULE += (' ' + 'Added classes: more than ten individuals; time axes on which distinct time points are close (large offsets, sub-1e-8 spacings).')
 ASSUMPTIONS = [
     'plotly trace objects (x, y, text, name, mode, xaxis/yaxis, layout axis titles) are what is rendered',
     'a trace is attributed to an individual through its legend name "ID: <id>", a band to its bulk probability '
